@@ -197,14 +197,29 @@ func (e *specEnv) callExpr(n *ECall, hint types.Type) sv {
 		argn(1)
 		return sv{Val: Val{t: e.heldTerm(n.Fun, n.Args[0]), typ: tBool}}
 	}
+	if n.Fun == "bhas" {
+		// bhas(b, x): x is an element of the set represented by the roaring bitmap b (ghost view)
+		argn(2)
+		b := e.eval(n.Args[0], nil)
+		if b.typ == nil {
+			sfail("bhas(bitmap, x)")
+		}
+		x := e.term(e.eval(n.Args[1], types.Typ[types.Uint64]), types.Typ[types.Uint64])
+		k := u.roaringKey()
+		return sv{Val: Val{t: fmt.Sprintf("(select (select %s %s) %s)", e.st.get(u, k), e.term(b, b.typ), x), typ: tBool}}
+	}
 	if n.Fun == "fresh" {
 		// fresh(x): the object x refers to was allocated after the function was entered
 		argn(1)
 		x := e.eval(n.Args[0], nil)
-		if x.typ == nil || !isRefLike(x.typ) || u.entryState == nil {
+		if x.typ == nil || !isRefLike(x.typ) || (u.entryState == nil && e.freshBase == "") {
 			sfail("fresh(x) needs a slice, pointer or map inside a function contract")
 		}
-		return sv{Val: Val{t: "(> " + refOf(e.term(x, x.typ), x.typ) + " " + u.entryState.get(u, allocKey) + ")", typ: tBool}}
+		base := e.freshBase
+		if base == "" {
+			base = u.entryState.get(u, allocKey)
+		}
+		return sv{Val: Val{t: "(> " + refOf(e.term(x, x.typ), x.typ) + " " + base + ")", typ: tBool}}
 	}
 	if n.Fun == "noneHeld" {
 		// noneHeld(Struct.field): this function holds no lock of that class
@@ -477,4 +492,9 @@ func (u *Unit) pureFnSymbol(fn *ssa.Function) (string, []types.Type, types.Type)
 	}
 	u.note("result of pure function %s represented by an uninterpreted function axiomatised by its contract", fn.Name())
 	return sym, ptypes, rt
+}
+
+// roaringKey: ghost heap of the sets represented by roaring bitmaps
+func (u *Unit) roaringKey() string {
+	return u.regKey("Ghost.roaring", "(Array Int (Array "+u.mode.intSort(intInfo{64, false})+" Bool))")
 }
